@@ -141,6 +141,27 @@ def run(res: Results, idx: Index, tier: str) -> None:
     forms = {(p, f) for p, f, _ in unbound_forms(o, wr)}
     res.control("R-C19a", "positional, renamed-keyword and keyword-only forms are reported on a synthetic pair", {("b", "positional#1"), ("b", "keyword"), ("c", "keyword-only")} <= forms, str(sorted(forms)))
     rule_e(res, idx)
+    rule_f(res, idx, tier)
+
+
+def rule_f(res: Results, idx: Index, tier: str) -> None:
+    """An accepted argument that is bound on the primitive has to reach the lowering on every configuration: for
+    fori_loop(lower, upper, …) that is decided by C06 R-C06e (trip count, bind(lower=…), body index = iteration + lower on
+    every lower != 0 path).  The same instances are decided here: a `lower` that is forwarded through every hop and then
+    dropped under an unrelated condition is an argument that is silently ignored."""
+    if getattr(res, "_nested_xref", False):
+        return
+    res.rule("R-C19f", "fori_loop's lower / upper arguments reach the Loop trip count and the body index on every path (C06 R-C06e)", floor=3)
+    from . import c06
+    sub = Results("C06", tier)
+    setattr(sub, "_nested_xref", True)
+    c06.run(sub, idx, tier)
+    n = 0
+    for inst in sub.instances:
+        if inst.rule == "R-C06e":
+            n += 1
+            res.add("R-C19f", inst.status, inst.site, f"R-C06e::{inst.key}", f"[C06 R-C06e] {inst.detail}", inst.func)
+    res.analysed["cross_referenced_fori_loop_instances"] = n
 
 
 def _only_deleted(w: ast.AST, nm: str) -> bool:
